@@ -30,7 +30,12 @@ Logged(r) ==
 TraceReshape == IsEvent("Reshape") /\ DoReshape(Rec[l].to) /\ Logged(Rec[l])
 TraceFlatten == IsEvent("Flatten") /\ DoFlatten /\ Logged(Rec[l])
 
-TraceNext == TraceReset \/ TraceReshape \/ TraceFlatten
+\* other library activity (a training run that completed, one that aborted half-way, a validation pass, batch
+\* prediction, a training run in progress on another thread) is a stuttering step: the contract of a tensor does not
+\* depend on the history of the rest of the library
+TraceOther == IsEvent("Other") /\ UNCHANGED vars
+
+TraceNext == TraceOther \/ TraceReset \/ TraceReshape \/ TraceFlatten
 TraceSpec == TraceInit /\ [][TraceNext]_tvars
 
 TraceAccepted ==
